@@ -20,7 +20,7 @@ def is_io_result(ty):
     return ty.startswith("std::result::Result<") and ty.rstrip(">").endswith("std::io::Error")
 
 
-def classify(f, du, dest):
+def classify(f, du, dest, _depth=0):
     """how the Result stored in local `dest` is consumed: set of tags"""
     tags = set()
     err_payload_read = False
@@ -72,9 +72,15 @@ def classify(f, du, dest):
                     for bl in f.blocks:
                         for st in bl["stmts"]:
                             rr = st["rhs"]
-                            if st["lhs"]["l"] == 0 and not st["lhs"]["p"] and rr["rv"] == "agg" and rr.get("variant") == "Err" and \
+                            if not st["lhs"]["p"] and rr["rv"] == "agg" and rr.get("variant") == "Err" and \
                                     any(o.get("pl") and o["pl"]["l"] in der for o in rr.get("ops", [])):
-                                tags.add("rethrown")
+                                if st["lhs"]["l"] == 0:
+                                    tags.add("rethrown")
+                                elif st["lhs"]["l"] != dest and _depth < 3:
+                                    # the Err is built in the return place of an inlined helper: what happens to THAT result decides
+                                    sub = classify(f, du, st["lhs"]["l"], _depth + 1)
+                                    if sub & {"propagated", "returned", "rethrown"}:
+                                        tags.add("rethrown")
                 elif any(p["l"] == dest and not p["p"] for p in pls) and r["rv"] in ("use",):
                     # moved into another local: follow one step
                     sub = classify(f, du, s["lhs"]["l"]) if s["lhs"]["l"] != dest and not s["lhs"]["p"] else {"stored"}
